@@ -69,3 +69,35 @@ func doSelftest(tier string, seed uint64, workers int) int {
 	}
 	return 0
 }
+
+// doSelfDiff runs one planned case several times and prints the first event at which two runs differ.
+func doSelfDiff(prop string, idx int, seed uint64) int {
+	p := props[prop]
+	cases := p.plan("quick", seed, idx+1)
+	c := cases[idx]
+	var logs [][]*scen.Event
+	for r, procs := range []int{1, 4, 16, 2, 8, 16, 1, 4, 16, 3, 16, 1} {
+		in := &scen.RunInput{Property: prop, Seed: c.Seed, Scenario: c.Scenario, JobDir: fmt.Sprintf("%s/sd-%d", workRoot, r), KeepLog: true}
+		res := runChild(in, wallLimitFor(c.Scenario), procs)
+		if res.rec == nil {
+			fmt.Println("no record", res.exit)
+			continue
+		}
+		fmt.Println("run", r, "GOMAXPROCS", procs, res.rec.Hash[:16], res.rec.EndReason, len(res.rec.Log))
+		logs = append(logs, res.rec.Log)
+	}
+	for r := 1; r < len(logs); r++ {
+		a, b := logs[0], logs[r]
+		for i := 0; i < len(a) && i < len(b); i++ {
+			ea, eb := a[i], b[i]
+			if ea.Step != eb.Step || ea.Actor != eb.Actor || ea.Point != eb.Point || fmt.Sprint(ea.Args) != fmt.Sprint(eb.Args) || ea.T != eb.T {
+				fmt.Printf("first difference run0 vs run%d at event %d:\n", r, i)
+				for j := max(0, i-6); j <= i+3 && j < len(a) && j < len(b); j++ {
+					fmt.Printf("  A %d %dms %s %s %v\n  B %d %dms %s %s %v\n", a[j].Step, a[j].T/1000000, a[j].Actor, a[j].Point, a[j].Args, b[j].Step, b[j].T/1000000, b[j].Actor, b[j].Point, b[j].Args)
+				}
+				break
+			}
+		}
+	}
+	return 0
+}
